@@ -29,24 +29,34 @@ open SoyVerif SoyVerif.Model SoyVerif.Model.Parser SoyVerif.Model.FileParser Soy
 def LexWF : Prop :=
   ∀ (str : Bytes) (is : List Item), Lex.lexAll str true = .items is → ∀ it ∈ is, WFItem it
 
-/-- the run of the file parser's top loop satisfies the program logic's judgement -/
-theorem top_safe (pf : Bytes → Option UInt64) (AP : Prop) (S : Item → Prop) (hz : S Item.zero) (items : List Item)
+/-- the run of the file parser's top loop satisfies the program logic's judgement; under `EL`
+    ("the EOF item is only ever the last item") a successful run has received every item -/
+theorem top_safe (pf : Bytes → Option UInt64) (AP EL : Prop) (S : Item → Prop) (hz : S Item.zero) (items : List Item)
     (hs : ∀ x ∈ items, S x) (hwf : ∀ it, S it → AP ∨ WFItem it)
-    (hlex : ∀ (str : Bytes) (is : List Item), Lex.lexAll str true = .items is → ∀ it ∈ is, AP ∨ WFItem it) :
+    (hlex : ∀ (str : Bytes) (is : List Item), Lex.lexAll str true = .items is → ∀ it ∈ is, AP ∨ WFItem it)
+    (hel : EL → ∀ x ∈ items.dropLast, x.typ ≠ .tEOF) :
     FSafe AP S (itemListLoop pf (exprFuel items) (FileParser.fuelFor items.length) [.tEOF] none .nil)
-      { p := Parser.initState items } (fun r _ => listOK r) := by
+      { p := Parser.initState items } (fun r st' => listOK r ∧ (EL → st'.p.rest = [])) := by
   have hmu := mu_init items
-  have h := (fileSpecs_all AP S pf (exprFuel items) items.length hz
+  have h := (fileSpecs_all AP EL S pf (exprFuel items) items.length hz
       (by unfold exprFuel Parser.fuelFor; omega) hwf hlex (FileParser.fuelFor items.length)).itemListLoop
-      [.tEOF] none .nil { p := Parser.initState items } childrenOK_nil (inv_init S items hz hs) hmu
+      [.tEOF] none .nil { p := Parser.initState items } childrenOK_nil (inv_init S items hz hs hel) hmu
       (by unfold FileParser.fuelFor; show 8 * mu (Parser.initState items) + 20 ≤ _; omega)
-  exact h.mono (fun _ _ h => h.1)
+  apply h.mono
+  intro r st' ⟨hl, hi, hpc, _, hu⟩
+  refine ⟨hl, fun hEL => ?_⟩
+  have hj := hi.2.1 hEL
+  have ht : (top st'.p).typ = .tEOF := by simpa using hu
+  unfold top at ht
+  split at ht
+  · exact hj.2.1 ht
+  · exact hj.2.2 ht
 
 /-- the file parser terminates on every token list -/
 theorem parse_total (pf : Bytes → Option UInt64) (items : List Item) :
     parseFile pf (exprFuel items) items ≠ .error .fuelOut := by
-  have h := top_safe pf True (fun _ => True) trivial items (fun _ _ => trivial)
-    (fun _ _ => Or.inl trivial) (fun _ _ _ _ _ => Or.inl trivial)
+  have h := top_safe pf True False (fun _ => True) trivial items (fun _ _ => trivial)
+    (fun _ _ => Or.inl trivial) (fun _ _ _ _ _ => Or.inl trivial) (fun h => absurd h id)
   unfold FSafe at h
   unfold parseFile
   simp only [StateT.run]
@@ -64,8 +74,8 @@ theorem parse_total (pf : Bytes → Option UInt64) (items : List Item) :
 theorem parse_err_at_token (pf : Bytes → Option UInt64) (items : List Item) (pos : Nat)
     (h : parseFile pf (exprFuel items) items = .error (.err pos)) :
     pos = 0 ∨ ∃ it ∈ items, it.pos = pos := by
-  have hsafe := top_safe pf True (fun it => it ∈ items ∨ it = Item.zero) (Or.inr rfl) items (fun x hx => Or.inl hx)
-    (fun _ _ => Or.inl trivial) (fun _ _ _ _ _ => Or.inl trivial)
+  have hsafe := top_safe pf True False (fun it => it ∈ items ∨ it = Item.zero) (Or.inr rfl) items (fun x hx => Or.inl hx)
+    (fun _ _ => Or.inl trivial) (fun _ _ _ _ _ => Or.inl trivial) (fun h => absurd h id)
   unfold FSafe at hsafe
   unfold parseFile at h
   simp only [StateT.run] at h
@@ -87,12 +97,12 @@ theorem parse_err_at_token (pf : Bytes → Option UInt64) (items : List Item) (p
 theorem parse_no_panic_of_wf (pf : Bytes → Option UInt64) (items : List Item)
     (hwf : ∀ it ∈ items, WFItem it) (hlex : LexWF) :
     parseFile pf (exprFuel items) items ≠ .error .panic := by
-  have h := top_safe pf False (fun it => it ∈ items ∨ it = Item.zero) (Or.inr rfl) items (fun x hx => Or.inl hx)
+  have h := top_safe pf False False (fun it => it ∈ items ∨ it = Item.zero) (Or.inr rfl) items (fun x hx => Or.inl hx)
     (fun it hit => by
       rcases hit with h | h
       · exact Or.inr (hwf it h)
       · subst h; exact Or.inr wf_zero)
-    (fun str is hl it hit => Or.inr (hlex str is hl it hit))
+    (fun str is hl it hit => Or.inr (hlex str is hl it hit)) (fun h => absurd h id)
   unfold FSafe at h
   unfold parseFile
   simp only [StateT.run]
@@ -101,6 +111,7 @@ theorem parse_no_panic_of_wf (pf : Bytes → Option UInt64) (items : List Item)
   · exact absurd hc (by simp)
   · rename_i r st' hnl he
     rw [he] at h
+    have h := h.1
     cases r <;> simp only [listOK] at h
     exact hnl _ _ rfl
   · rename_i e he
@@ -112,6 +123,7 @@ theorem parse_no_panic_of_wf (pf : Bytes → Option UInt64) (items : List Item)
 theorem wf_of_itemOK {it : Item} (h : Lex.itemOK it = true) : WFItem it := by
   simp only [Lex.itemOK, Lex.sliced1, Lex.sliced2, Bool.and_eq_true, Bool.or_eq_true, Bool.not_eq_true',
     decide_eq_true_eq, beq_eq_false_iff_ne, beq_iff_eq] at h
+  replace h := h.1
   constructor
   · intro ht hv
     rcases h.1 with h1 | h1
@@ -122,15 +134,48 @@ theorem wf_of_itemOK {it : Item} (h : Lex.itemOK it = true) : WFItem it := by
     · rcases ht with ht | ht <;> simp [ht] at h2
     · exact h2
 
+theorem mem_dropLast_or_last {α : Type} (xs : List α) (x : α) (h : x ∈ xs) :
+    x ∈ xs.dropLast ∨ xs.getLast? = some x := by
+  induction xs with
+  | nil => simp at h
+  | cons y r ih =>
+    cases r with
+    | nil => simp at h; right; simp [h]
+    | cons z r' =>
+      simp only [List.mem_cons] at h
+      rcases h with rfl | h
+      · left; simp [List.dropLast]
+      · have := ih (by simpa using h)
+        rcases this with h1 | h1
+        · left; simp only [List.dropLast_cons₂, List.mem_cons]; exact Or.inr h1
+        · right; simpa [List.getLast?_cons_cons] using h1
+
 /-- every token the lexer model sends is long enough for the slices the parser takes of it -/
 theorem lex_wf (input : Bytes) (exprMode : Bool) (is : List Item)
     (h : Lex.lexAll input exprMode = .items is) : ∀ it ∈ is, WFItem it := by
+  obtain ⟨is', hl, ⟨e, hlast, hty⟩, _, hok⟩ := lex_items input exprMode
+  rw [h] at hl
+  simp only [Lex.LexResult.items.injEq] at hl
+  subst hl
+  intro it hit
+  rcases mem_dropLast_or_last is it hit with h1 | h1
+  · exact wf_of_itemOK (hok it h1)
+  · rw [hlast] at h1
+    simp only [Option.some.injEq] at h1
+    subst h1
+    constructor <;> intro ht <;> rcases hty with h | h <;> simp [h] at ht
+
+/-- the EOF item is only ever the last item of the lexer -/
+theorem lex_eof_last (input : Bytes) (exprMode : Bool) (is : List Item)
+    (h : Lex.lexAll input exprMode = .items is) : ∀ it ∈ is.dropLast, it.typ ≠ .tEOF := by
   obtain ⟨is', hl, _, _, hok⟩ := lex_items input exprMode
   rw [h] at hl
   simp only [Lex.LexResult.items.injEq] at hl
   subst hl
   intro it hit
-  exact wf_of_itemOK (hok it hit)
+  have := hok it hit
+  simp only [Lex.itemOK, Bool.and_eq_true, bne_iff_ne, ne_eq] at this
+  exact this.2
 
 theorem lexWF : LexWF := fun str is h => lex_wf str true is h
 
